@@ -684,4 +684,40 @@ theorem run_indep (cfg : Cfg) (ops : List Op) : ∀ (a : Arr) (m1 m2 : Mem), a.I
     rw [e2] at this ⊢
     exact ⟨by rw [this.1], this.2.1, this.2.2⟩
 
+theorem run_append (cfg : Cfg) (ops1 ops2 : List Op) : ∀ (a : Arr) (m : Mem),
+    (a.run cfg (ops1 ++ ops2) m).1 = (a.run cfg ops1 m).1 ++ ((a.run cfg ops1 m).2.1.run cfg ops2 (a.run cfg ops1 m).2.2).1 ∧
+    (a.run cfg (ops1 ++ ops2) m).2 = ((a.run cfg ops1 m).2.1.run cfg ops2 (a.run cfg ops1 m).2.2).2 := by
+  induction ops1 with
+  | nil => intro a m; exact ⟨rfl, rfl⟩
+  | cons op ops ih =>
+    intro a m
+    obtain ⟨i1, i2⟩ := ih (a.step cfg op m).2.1 (a.step cfg op m).2.2
+    simp only [List.cons_append, Arr.run]
+    exact ⟨by rw [i1], i2⟩
+
+/-- iterator programs: ledger effect and allocator independence of one iterator call -/
+theorem iterStep_led (a : Arr) (it : ArrIter) (op : IterOp) (m : Mem) (hinv : a.Inv) (c : Spec.Seq.Cursor)
+    (hs : Sim a it c) :
+    Led m (a.iterStep it op m).2.2.2 (decide ((a.iterStep it op m).1.st = some .errAlloc)) := by
+  cases op with
+  | next =>
+    obtain ⟨r1, _, _, r4⟩ := iterNext_sim a it c m hinv hs
+    have : (a.iterNext it m).1 ≠ .errAlloc := by
+      rw [r1]; unfold Spec.Seq.Cursor.next; split <;> simp
+    simp only [iterStep, r4]; simp [this]; exact Led.rfl' m
+  | remove =>
+    obtain ⟨r1, _, _, _, _, r6, _⟩ := iterRemove_sim a it c m hinv hs
+    have : (a.iterRemove it m).1 ≠ .errAlloc := by
+      rw [r1]; unfold Spec.Seq.Cursor.remove; split
+      · simp
+      · split <;> simp
+    simp only [iterStep, r6]; simp [this]; exact Led.rfl' m
+  | add x => have := iterAdd_led a it x m; simpa [iterStep] using this
+  | replace x =>
+    obtain ⟨r1, _, _, _, _, r6, _⟩ := iterReplace_sim a it c x m hinv hs
+    have : (a.iterReplace it x m).1 ≠ .errAlloc := by
+      rw [r1]; unfold Spec.Seq.Cursor.replace; split <;> simp
+    simp only [iterStep, r6]; simp [this]; exact Led.rfl' m
+  | index => simp only [iterStep]; exact Led.rfl' m
+
 end CC.Arr
